@@ -41,7 +41,10 @@ class C19(Property):
     def generate(self, rng, tier):
         for i in range(40 if tier == 'quick' else 600):
             n = rng.choice([5, 20, 60, 300] if tier == 'quick' else [5, 50, 500, 3000])
-            kinds = ''.join(rng.choice('RRRNNK' if i % 3 else 'RRN') for _ in range(n))
+            # C, P: a comment / a processing instruction between the records
+            kinds = ''.join(rng.choice(('RRRNNK' if i % 3 else 'RRN') + ('CP' if i % 5 == 4 else '')) for _ in range(n))
+            if i % 10 == 9:
+                kinds = rng.choice('CP') + kinds
             pre = ''.join(rng.choice('RNK') for _ in range(rng.randint(0, 4))) if i % 2 else ''
             case = {'kind': 'xmed', 'kinds': kinds, 'pre': pre}
             if i % 4 == 3:
@@ -97,7 +100,7 @@ class C19(Property):
             parts.append({'R': '<item id="s%d"/>' % i, 'N': '<note>sn%d</note>' % i, 'K': '<other>sk%d</other>' % i}[k])
         parts.append('</summary><records>')
         for i, k in enumerate(case['kinds']):
-            parts.append({'R': '<item id="r%d"/>' % i, 'N': '<note>n%d</note>' % i,
+            parts.append({'R': '<item id="r%d"/>' % i, 'N': '<note>n%d</note>' % i, 'C': '<!-- c%d -->' % i, 'P': '<?pi p%d?>' % i,
                           'K': ('<notes>k%d</notes>' if case.get('two_null') else '<other>k%d</other>') % i}[k])
         parts.append('</records></root>')
         out = io.BytesIO()
@@ -115,6 +118,20 @@ class C19(Property):
         except Exception as ex:
             err = type(ex).__name__
         return {'err': err, 'log': log, 'children': len(state['parent']) if 'parent' in state else None}
+
+    @staticmethod
+    def model_kinds(case):
+        """The children of <records> as the mediator treats them: R record, N discardable (a NullTranscoder covers it), K kept.
+        Comments and processing instructions have no transcoder: kept, unless the NullTranscoder sits on their container."""
+        out = []
+        for k in case['kinds']:
+            if k in 'CP':
+                out.append('N' if case.get('null_on_container') else 'K')
+            elif k == 'K':
+                out.append('N' if (case.get('null_on_container') or case.get('two_null')) else 'K')
+            else:
+                out.append(k)
+        return ''.join(out)
 
     def items_of(self, case):
         rng = random.Random(case['seed'])
@@ -157,7 +174,7 @@ class C19(Property):
 
     def requests(self, case):
         if case.get('kind') == 'xmed':
-            kinds = case['kinds'].replace('K', 'N') if (case.get('null_on_container') or case.get('two_null')) else case['kinds']
+            kinds = self.model_kinds(case)
             return [{'op': 'xmed', 'kinds': list(kinds), 'cross': 'R' in case['pre']}]
         return [{'op': 'parse', 'reg': P.make_registry(REGS, False, True),
                  'chunks': [P.model_items(self.items_of(case))], 'rootEnd': True, 'versionOk': True}]
@@ -173,7 +190,7 @@ class C19(Property):
         if case.get('kind') == 'xmed':
             if obs['err'] is not None:
                 return 'XML transcoder mediator failed: %s' % obs['err']
-            kinds = case['kinds'].replace('K', 'N') if (case.get('null_on_container') or case.get('two_null')) else case['kinds']
+            kinds = self.model_kinds(case)
             lead = kinds.index('R') if 'R' in kinds else len(kinds)
             recs = [i for i, k in enumerate(kinds) if k == 'R']
             if len(obs['log']) != len(recs):
